@@ -2,7 +2,7 @@
 from facts import AnalysisBroken
 from model import (dstr, strip, fact_holds, mentions_field, mentions_call, mentions_var,
                    const_value, walk)
-from rules import (deep_resolve, guarded, calls_to, field_writes, who_may_write, full_range, loops_over,
+from rules import (loop_blocks, deep_resolve, guarded, calls_to, field_writes, who_may_write, full_range, loops_over,
                    every_iteration_passes, basename, origins, is_var, is_enum, lastname)
 from props.scan_common import (var_base, OUTDIRTY, check_prune_recheck, check_refresh_validations, ts_role, ts_comparisons, check_cc, effect_returns,
                                effect_assigns, true_succ)
@@ -125,7 +125,30 @@ def run(ctx):
         for e in fn.calls('RecomputeOutputsDirtyCache::CachedLogEntry::LookupByOutput'):
             ctx.check('C02.O1', mentions_var(e.get('args'), 'output'), fn.name, 'lookup:wrong-node', fn.where(e),
                       'the entry looked up is the one of the output being checked')
-    ctx.floor('C02.O1', 5)
+    # the looked-up entry is remembered (the cache object answers later calls without looking again): then one cache object
+    # serves one output only - the object handed to the per-output check is selected by the same loop variable as the output
+    # (or lives inside the loop).  One object for the whole edge applies the first output's record to all of them.
+    memo = any(x['k'] == 'ret' and not mentions_call(x.get('e'), 'BuildLog::LookupByOutput') and
+               fact_holds(lk.facts_at(x), lambda a: True, None) and lk.facts_at(x) for x in lk.events('ret'))
+    npo = 0
+    for fname in ('RecomputeOutputsDirtyCache::all', 'RecomputeOutputsDirtyCache::depfile'):
+        for fn in prog.by_name.get(fname, []):
+            for e in fn.events('call'):
+                if not (e.get('name') or '').startswith('RecomputeOutputsDirtyCache::RecomputeOutputDirty') or len(e.get('args') or []) < 3:
+                    continue
+                npo += 1
+                sel = {x['n'] for x in walk(e['args'][0]) if isinstance(x, dict) and x.get('k') == 'var'}
+                cache = e['args'][2]
+                cvars = {x['n'] for x in walk(cache) if isinstance(x, dict) and x.get('k') == 'var'}
+                inside = set()
+                for l_ in loops_over(fn, 'Edge::outputs_'):
+                    blks = loop_blocks(fn, l_)
+                    inside |= {d_['n'] for b_ in blks for d_ in fn.blocks[b_]['ev'] if d_['k'] == 'decl'}
+                ok = (not memo) or bool(sel & cvars) or bool(cvars & inside)
+                ctx.check('C02.O1', ok, fn.name, 'log-entry-cache:shared-between-outputs', fn.where(e),
+                          'the remembered build-log entry handed to the check of %s belongs to that output (`%s`)' % (dstr(e['args'][0])[-30:], dstr(cache)[-50:]))
+    ctx.check('C02.O1', npo >= 2, 'RecomputeOutputsDirtyCache', 'log-entry-cache:sites', lk.loc, '%d per-output checks found' % npo)
+    ctx.floor('C02.O1', 8)
 
     # ---- CC: strictness --------------------------------------------------------------------------
     R('C02.CC', 'CC', 'the relations that make an output dirty are strict: equal timestamps are '
